@@ -14,9 +14,11 @@ import (
 	"fmt"
 	"math/rand"
 	"net/http"
+	"sync"
 	"time"
 
 	"Havoc/pkg/handlers"
+	"Havoc/pkg/verifhook"
 
 	"verifh/demon"
 	"verifh/lib"
@@ -633,6 +635,92 @@ func (e *env) next() reqCase {
 	return reqCase{Gen: g, Body: hex.EncodeToString(b)}
 }
 
+// burst sends the same kind of socket callback for ONE new socket id from several
+// connections at once (the listener serves every request in its own goroutine): the
+// rportfwd/socks tables are the only agent state with their own locks, and a lock that is
+// not released on one path only shows when two requests meet there.
+func (e *env) burst() (bodies [][]byte, kind string) {
+	s := e.someSim()
+	if s == nil {
+		return nil, ""
+	}
+	id := e.rng.Uint32()
+	mk := func(sub uint32, vals ...uint32) []byte {
+		var p demon.Pkg
+		p.I32(sub)
+		for _, v := range vals {
+			p.I32(v)
+		}
+		return e.envelope(e.idx(s), demon.Callback{Cmd: demon.CmdSocket, ReqID: e.rng.Uint32(), Body: p.B})
+	}
+	switch e.rng.Intn(3) {
+	case 0:
+		kind = "burst:socket-open-same-id"
+		for k := 0; k < 8; k++ {
+			bodies = append(bodies, mk(0x10, id, 0x0100007f, 4444, 0x0100007f, 1))
+		}
+	case 1:
+		kind = "burst:socket-open-close"
+		for k := 0; k < 8; k++ {
+			if k%2 == 0 {
+				bodies = append(bodies, mk(0x10, id, 0x0100007f, 4444, 0x0100007f, 1))
+			} else {
+				bodies = append(bodies, mk(0x4, id, 1, 0x0100007f, 4444, 0x0100007f, 1))
+			}
+		}
+	default:
+		kind = "burst:socket-close-same-id"
+		for k := 0; k < 8; k++ {
+			bodies = append(bodies, mk(0x13, id, 2))
+		}
+	}
+	return bodies, kind
+}
+
+func (e *env) execBurst(bodies [][]byte, kind string) *verdict {
+	// hold every request at the entry of the table mutators for a moment so that several of
+	// them are between "looked the id up" and "changed the table" at the same time
+	verifhook.Set("agent.table.lock", func() { time.Sleep(200 * time.Microsecond) })
+	defer verifhook.Set("agent.table.lock", nil)
+	var wg sync.WaitGroup
+	res := make([]rig.Resp, len(bodies))
+	start := make(chan struct{})
+	for i := range bodies {
+		wg.Add(1)
+		go func(i int) {
+			defer wg.Done()
+			<-start
+			res[i] = rig.Post(e.eng, e.path, bodies[i], nil)
+		}(i)
+	}
+	close(start)
+	done := make(chan struct{})
+	go func() { wg.Wait(); close(done) }()
+	select {
+	case <-done:
+	case <-time.After(6 * time.Second):
+		// requests that normally take microseconds have not returned: the verdict is the
+		// lock probe, not the clock
+		if held := observe.HeldAgentLocks(e.r.TS, 2*time.Second); len(held) > 0 {
+			return &verdict{"lock-held", fmt.Sprintf("during a %s (8 concurrent requests) some requests never returned and these agent mutexes stay locked: %v", kind, held)}
+		}
+		select {
+		case <-done:
+		case <-time.After(60 * time.Second):
+			return &verdict{"burst-stuck-no-lock-held", fmt.Sprintf("a %s did not complete within 75 s although no agent mutex is held", kind)}
+		}
+	}
+	for _, r := range res {
+		if r.Panic != nil {
+			return &verdict{lib.PanicSig(r.Panic, r.Stack), fmt.Sprintf("handler panics during a %s: %v", kind, r.Panic)}
+		}
+	}
+	if held := observe.HeldAgentLocks(e.r.TS, 500*time.Millisecond); len(held) > 0 {
+		return &verdict{"lock-held", fmt.Sprintf("after a %s (8 concurrent requests) these agent mutexes stay locked: %v", kind, held)}
+	}
+	return nil
+}
+
 // ---- monitors ----
 
 type verdict struct{ sig, what string }
@@ -693,11 +781,39 @@ func diffClass(d []string) string {
 }
 
 func run(c *lib.Ctx) {
-	c.Rule("requests = random bytes | valid header + random tail | reference-encoded callback layouts with one field-level corruption (truncate, length prefix 0/1/len±1/2^31/2^32-1, cut inside a field, bit flips, sub-command, trailing bytes, empty strings) | hand-written hostile bodies for decoders with counts/loops/nesting | registrations (valid, truncated, corrupt, reconnect) | check-ins walking queued pivot jobs; " +
+	c.Rule("requests = random bytes | valid header + random tail | reference-encoded callback layouts with one field-level corruption (truncate, length prefix 0/1/len±1/2^31/2^32-1, cut inside a field, bit flips, sub-command, trailing bytes, empty strings) | hand-written hostile bodies for decoders with counts/loops/nesting | registrations (valid, truncated, corrupt, reconnect) | check-ins walking queued pivot jobs | bursts of 8 concurrent socket callbacks for one new socket id (every 25th case); " +
 		"sent to 14 state shapes (agents 0/1/3 x outstanding ids x SendLogs x open downloads x pivot links x Service block x External endpoint). distinct = distinct request bytes; non-trivial = longer than the 20-byte header")
 	c.Assume("requests enter through the listener's gin engine in-process (ServeHTTP on a recorder), so a panic is observed with its stack instead of being swallowed by net/http",
 		"'not valid traffic' is read as 'answered with the decoy 404' (weakest reading)", "hangs are detected by the per-shard watchdog over the on-disk current input and confirmed in isolation by the driver")
 	if c.Replay != nil {
+		var bw struct {
+			Shape shape    `json:"shape"`
+			Seed  int64    `json:"seed"`
+			Burst []string `json:"burst"`
+			Kind  string   `json:"kind"`
+		}
+		if json.Unmarshal(c.Replay, &bw) == nil && len(bw.Burst) > 0 {
+			// schedule dependent: repeat the burst up to 300 times on fresh socket ids of the same kind
+			e, err := build(bw.Shape, bw.Seed)
+			if err != nil {
+				c.Inconclusive("replay setup: " + err.Error())
+				return
+			}
+			defer e.close()
+			for k := 0; k < 300; k++ {
+				var bodies [][]byte
+				kind := ""
+				for kind != bw.Kind {
+					bodies, kind = e.burst()
+				}
+				c.Eval()
+				if v := e.execBurst(bodies, kind); v != nil {
+					c.Violation(v.sig, v.what, bw)
+					return
+				}
+			}
+			return
+		}
 		var w witness
 		if json.Unmarshal(c.Replay, &w) != nil {
 			c.Inconclusive("unreadable witness")
@@ -759,6 +875,32 @@ func run(c *lib.Ctx) {
 			}
 			if len(hist) == 0 {
 				poolAt = e.poolCopy()
+			}
+			if c.ViolationCount() >= 8 {
+				// enough witnesses; every further one costs a rebuild (and a bounded wait for wedges)
+				c.Observe("stopped-early-after-8-violations", 1)
+				break
+			}
+			if i%25 == 24 && len(e.sims) > 0 {
+				bodies, kind := e.burst()
+				var hx []string
+				for _, b := range bodies {
+					hx = append(hx, hex.EncodeToString(b))
+				}
+				bw := map[string]any{"shape": sh, "seed": seed, "burst": hx, "kind": kind}
+				wb, _ := json.Marshal(bw)
+				c.Cur("burst", wb)
+				c.Eval()
+				c.Observe("gen.burst", 1)
+				if v := e.execBurst(bodies, kind); v != nil {
+					c.Violation(v.sig, v.what, bw)
+					e.close()
+					if e, err = build(sh, seed); err != nil {
+						break
+					}
+					hist = nil
+				}
+				continue
 			}
 			rc := e.next()
 			body, _ := hex.DecodeString(rc.Body)
